@@ -89,7 +89,7 @@ def parse_container_sort(name: str) -> Sort:
 
 
 def new_dict_cell(m: Any, hint: str, ordered: bool = False) -> VHeapRef:
-    ms = parse_container_sort(hint.replace("Dict[", "Map[").replace("ODict[", "Map["))
+    ms = parse_container_sort(hint.replace("ODict[", "Map[").replace("Dict[", "Map["))
     assert isinstance(ms, MapSort)
     extra = {"keys": seq_of(ms.key).empty()} if ordered or hint.startswith("ODict[") else {}
     return VHeapRef(m.ctx.alloc("dict", ms.empty(), extra), "dict")
@@ -146,6 +146,14 @@ def map_getitem(m: Any, mp: VMap, k: V) -> V:
 def dict_store(m: Any, cell: Any, k: V, v: V) -> None:
     ms: MapSort = cell.value.sort
     kt = _key(cell, k)
+    try:
+        ms.val.coerce(v if not isinstance(v, VHeapRef) else m.ctx.cell(v.addr).value)
+    except EngineError:
+        for h in getattr(m.world, "coerce_hooks", []):
+            alt = h(m, v, ms.val.name)
+            if alt is not None:
+                v = alt
+                break
     if "keys" in cell.extra:
         keys: VSeq = cell.extra["keys"]
         present = z3.Not(ms.opt.is_none(z3.Select(cell.value.term, kt)))
